@@ -5,7 +5,7 @@ os.chdir('/verif')
 muts = {json.loads(l)['id']: json.loads(l) for l in open(sys.argv[1])}
 ROOT = tempfile.mkdtemp(prefix='mq.', dir='/tmp')
 def sh(cmd): return subprocess.run(cmd, shell=True, capture_output=True, text=True)
-sh(f'mkdir -p {ROOT}/base && cd /repo && git archive HEAD | tar -x -C {ROOT}/base')
+sh(f'mkdir -p {ROOT}/base && cd /repo && git archive {os.environ.get("MUTBASE", "HEAD")} | tar -x -C {ROOT}/base')
 def keys_of(repo):
     out = sh(f'./bin/colvet -repo {repo} -property all -keys 2>&1').stdout
     return set(re.findall(r'^KEY ((?:violated|undecided) .*)$', out, re.M))
